@@ -128,6 +128,20 @@ pub fn enumerate(b: &Bounds) -> Vec<(u64, Cfg)> {
                 }
             }
         }
+        // the same entry listed by two or by all targets (shared boilerplate `uses` lists)
+        if nt >= 2 {
+            for e in &entries {
+                let all: Vec<(usize, &str)> = (0..nt).map(|ti| (ti, *e)).collect();
+                use_sets.push(all);
+                if nt >= 3 {
+                    for i in 0..nt {
+                        for j in (i + 1)..nt {
+                            use_sets.push(vec![(i, *e), (j, *e)]);
+                        }
+                    }
+                }
+            }
+        }
         let perms = if nt <= b.perm_t {
             permutations(nt)
         } else {
@@ -178,7 +192,7 @@ pub fn run(tier: &str, root: &Path) -> Value {
         rep.sample(json!({"config": cfg.to_value(), "oracle_edges": cfg.adj()}));
     }
     rep.finish(
-        "every target set T of D10 (|T|<=max_t) x every placement of <=max_uses `uses` entries from P10 on any target x every declaration order for |T|<=perm_t; case = one configuration, all distinct; non-trivial = oracle relation has at least one dependency",
+        "every target set T of D10 (|T|<=max_t) x every placement of <=max_uses `uses` entries from P10 on any target, plus every single entry shared by two or by all targets, x every declaration order for |T|<=perm_t; case = one configuration, all distinct; non-trivial = oracle relation has at least one dependency",
         true,
         json!({"max_targets": b.max_t, "max_uses_entries": b.max_uses, "all_orders_up_to_targets": b.perm_t,
                "dir_universe": DIRS, "extra_entries": EXTRA}),
